@@ -193,6 +193,20 @@ def run(ctx):
     R.ob('C03.owed', ('dispatch poll', 'a cancellation taken for an in-flight request is written before the dispatch returns'), not owed_exits and not res['viol'],
          'once an id was taken from the cancellation queue and its entry removed, the Cancel is handed to the transport in the same activation (or the dispatch ends with an error): it cannot be dropped by an early return',
          sorted({s_ for v in res['viol'].values() for s_ in v}) or [poll.loc(poll.d)], 'exits with an unwritten cancellation: %s; %s' % (owed_exits, list(res['viol'])))
+    # the cancellation queue is consumed: registered on every idle return (only a pending write-side poll may postpone it), and the
+    # write side is closed only after it ended
+    from .wake import source_jobs, pending_states, source_ok
+    poll2, reach2, jobs = source_jobs(F, P, ('K',), extra=[{'key': 'close', 'aut': ('close',)}])
+    wres = run_jobs(F, jobs)
+    keys = pending_states(wres['K'])
+    badk = [k for k in keys if not source_ok('K', k)]
+    R.ob('C03.queue', ('dispatch poll', 'cancellation queue registered on every idle return'), not badk and len(keys) >= 2,
+         'the dispatch goes idle only with the cancellation queue polled last with Pending (or ended), or while a write-side poll is pending: in particular not merely because the in-flight table is full',
+         [poll.loc(poll.d)], 'offending exit states (last outcome, w_wait, drain, at_capacity): %s' % badk)
+    cb = [k for k in wres['close']['viol'] if k[0] == 'CLOSE_BEFORE_BOTH_QUEUES_CLOSED']
+    R.ob('C03.queue', ('dispatch poll', 'write side closed only after the cancellation queue ended'), not cb,
+         'queued cancellations are written before the transport is closed: poll_close is reached only with the cancellation queue at Ready(None)',
+         sorted({s_ for k in cb for s_ in wres['close']['viol'][k]}), str([k[1:] for k in cb]))
     # the Cancel write's failure is terminal (the "connection lost" exemption)
     for g, sbb, st_, agg in csend:
         from .common import deep_roots
